@@ -595,13 +595,14 @@ def read_submod_def(line: str):
     name: str = ""
     trailing_line = line[submod_match.end(0) :].split("!")[0]
     trailing_line = trailing_line.strip()
-    parent_match = FRegex.WORD.match(trailing_line)
-    if parent_match:
-        parent_name = parent_match.group(0).lower()
-        if len(trailing_line) > parent_match.end(0) + 1:
-            trailing_line = trailing_line[parent_match.end(0) + 1 :].strip()
-        else:
-            trailing_line = ""
+    # `(ancestor-module [: parent-submodule]) name`, the parent is the last one
+    i_close = trailing_line.find(")")
+    if i_close < 0:
+        i_close = len(trailing_line)
+    parents = FRegex.WORD.findall(trailing_line[:i_close])
+    if parents:
+        parent_name = parents[-1].lower()
+    trailing_line = trailing_line[i_close + 1 :].strip()
 
     name_match = FRegex.WORD.search(trailing_line)
     if name_match:
